@@ -43,6 +43,8 @@ pub(crate) use self::relay::{
 };
 #[cfg(feature = "verif-hooks")]
 pub(crate) use self::relay::VerifRelayRecvDatagram;
+#[cfg(feature = "verif-hooks")]
+pub(crate) use self::relay::VerifActiveRelay;
 
 /// How many times all transports may error on `poll_recv` before we give up.
 ///
